@@ -101,6 +101,166 @@ pub fn generate() -> String {
     out
 }
 
+/// Second part of the corpus (`pinned-extra-<cfg>.txt`, also generated from the pinned release): the paths the first
+/// part does not reach - encapsulations whose targets are *all* hybridized with 2, 3 and 4 components (what `T` hashes
+/// there includes every ML-KEM ciphertext, in order), user keys with chains of four revisions, PKE ciphertexts, headers
+/// with longer metadata. Self-describing rows: `x.enc<i> bytes secret policy openers`, `x.pke<i> enc ct ptx openers`,
+/// `x.hdr<i> bytes secret meta ad openers`.
+pub fn generate_extra() -> String {
+    use cosmian_cover_crypt::traits::PkeAc;
+    use cosmian_crypto_core::Aes256Gcm;
+    let mut out = String::new();
+    let cc = Covercrypt::default();
+    let (mut msk, _) = cc.setup().unwrap();
+    {
+        let s = &mut msk.access_structure;
+        s.add_hierarchy("L".into()).unwrap();
+        s.add_attribute(qa("L", "L1"), EncryptionHint::Classic, None).unwrap();
+        s.add_attribute(qa("L", "L2"), EncryptionHint::Hybridized, Some("L1")).unwrap();
+        s.add_attribute(qa("L", "L3"), EncryptionHint::Hybridized, Some("L2")).unwrap();
+        s.add_anarchy("D".into()).unwrap();
+        for a in ["A", "B", "C"] {
+            s.add_attribute(qa("D", a), EncryptionHint::Hybridized, None).unwrap();
+        }
+    }
+    let mpk0 = cc.update_msk(&mut msk).unwrap();
+    let pols = ["L::L3 && D::A", "D::B || D::C", "*", "L::L2", "L::L1 && D::C"];
+    let mut usks = vec![];
+    for p in pols {
+        usks.push(cc.generate_user_secret_key(&mut msk, &ap(p)).unwrap());
+    }
+    let encpols = ["D::A || D::B", "L::L3 && D::A || L::L3 && D::B || L::L3 && D::C", "D::A || D::B || D::C || L::L2",
+        "L::L2 && D::A || L::L3 && D::C", "L::L1", "L::L1 && D::B || D::C", "*"];
+    let mut encs = vec![];
+    for p in encpols {
+        let (s, e) = cc.encaps(&mpk0, &ap(p)).unwrap();
+        encs.push((p.to_string(), s, e));
+    }
+    // three rotations, every key refreshed with its old secrets each time: chains of four revisions
+    let mut mpk = cc.update_msk(&mut msk).unwrap();
+    for _ in 0..3 {
+        mpk = cc.rekey(&mut msk, &ap("*")).unwrap();
+        for u in usks.iter_mut() {
+            cc.refresh_usk(&mut msk, u, true).unwrap();
+        }
+        let (s, e) = cc.encaps(&mpk, &ap("L::L3 && D::A || L::L3 && D::B || L::L2 && D::C")).unwrap();
+        encs.push(("L::L3 && D::A || L::L3 && D::B || L::L2 && D::C".to_string(), s, e));
+    }
+    writeln!(out, "x.msk {}", hex(&msk.serialize().unwrap())).unwrap();
+    writeln!(out, "x.mpk0 {}", hex(&mpk0.serialize().unwrap())).unwrap();
+    writeln!(out, "x.mpk {}", hex(&mpk.serialize().unwrap())).unwrap();
+    for (i, u) in usks.iter().enumerate() {
+        writeln!(out, "x.usk{} {} {}", i, hex(&u.serialize().unwrap()), hex(pols[i].as_bytes())).unwrap();
+    }
+    let openers_of = |f: &dyn Fn(&cosmian_cover_crypt::UserSecretKey) -> bool| -> String {
+        let o: Vec<String> = usks.iter().enumerate().filter(|(_, u)| f(u)).map(|(j, _)| j.to_string()).collect();
+        if o.is_empty() { "-".into() } else { o.join(",") }
+    };
+    for (i, (p, s, e)) in encs.iter().enumerate() {
+        let o = openers_of(&|u| cc.decaps(u, e).ok().flatten().map(|x| &*x == &**s).unwrap_or(false));
+        writeln!(out, "x.enc{} {} {} {} {}", i, hex(&e.serialize().unwrap()), hex(&**s), hex(p.as_bytes()), o).unwrap();
+    }
+    for (i, (p, n)) in [("D::A || D::B", 0usize), ("L::L3 && D::A || L::L3 && D::B || L::L3 && D::C", 37), ("L::L1", 4100)].iter().enumerate() {
+        let ptx: Vec<u8> = (0..*n).map(|k| (k * 7 + i) as u8).collect();
+        let (x, c) = PkeAc::<{ Aes256Gcm::KEY_LENGTH }, Aes256Gcm>::encrypt(&cc, &mpk, &ap(p), &ptx).unwrap();
+        let o = openers_of(&|u| PkeAc::<{ Aes256Gcm::KEY_LENGTH }, Aes256Gcm>::decrypt(&cc, u, &(x.clone(), c.clone())).ok().flatten().map(|q| q.to_vec() == ptx).unwrap_or(false));
+        writeln!(out, "x.pke{} {} {} x{} {}", i, hex(&x.serialize().unwrap()), hex(&c), hex(&ptx), o).unwrap();
+    }
+    for (i, (p, ml, ad)) in [("D::A || D::B", 300usize, Some(&b"authentication data"[..])), ("L::L3 && D::A || L::L3 && D::B || L::L3 && D::C", 99, None), ("L::L1", 0, Some(&b""[..]))].iter().enumerate() {
+        let md: Vec<u8> = (0..*ml).map(|k| (k * 3 + i) as u8).collect();
+        let (s, h) = EncryptedHeader::generate(&cc, &mpk, &ap(p), Some(&md), *ad).unwrap();
+        let o = openers_of(&|u| h.decrypt(&cc, u, *ad).ok().flatten().map(|c| c.secret == s).unwrap_or(false));
+        writeln!(out, "x.hdr{} {} {} x{} {} {}", i, hex(&h.serialize().unwrap()), hex(&*s), hex(&md), ad.map(|a| format!("x{}", hex(a))).unwrap_or("-".into()), o).unwrap();
+    }
+    out
+}
+
+/// the objects of the second part, read and *used* by the current tree
+pub fn check_extra(path: &str) -> (usize, Vec<String>, Vec<String>) {
+    use cosmian_cover_crypt::{traits::PkeAc, MasterPublicKey, MasterSecretKey, UserSecretKey, XEnc};
+    use cosmian_crypto_core::Aes256Gcm;
+    use crate::util::unhex;
+    let Ok(txt) = std::fs::read_to_string(path) else { return (0, vec![], vec![]) };
+    let cc = Covercrypt::default();
+    let cfg = crate::util::CFG;
+    let (mut checks, mut fails, mut mlines) = (0usize, vec![], vec![]);
+    let rows: Vec<Vec<String>> = txt.lines().map(|l| l.split(' ').map(|s| s.to_string()).collect()).collect();
+    let un = |s: &str| unhex(s.strip_prefix('x').unwrap_or(s)).unwrap();
+    let mut usks: Vec<UserSecretKey> = vec![];
+    let mut msk = None;
+    for r in &rows {
+        if r[0].starts_with("x.usk") {
+            match UserSecretKey::deserialize(&un(&r[1])) { Ok(u) => usks.push(u), Err(_) => fails.push(format!("{}: no longer deserialises", r[0])) }
+            mlines.push(format!("wire usk {cfg} x{}", r[1]));
+        } else if r[0] == "x.msk" {
+            msk = MasterSecretKey::deserialize(&un(&r[1])).ok();
+            if msk.is_none() { fails.push("x.msk: no longer deserialises".into()); }
+            mlines.push(format!("wire msk {cfg} x{}", r[1]));
+        } else if r[0].starts_with("x.mpk") {
+            if MasterPublicKey::deserialize(&un(&r[1])).is_err() { fails.push(format!("{}: no longer deserialises", r[0])); }
+            mlines.push(format!("wire mpk {cfg} x{}", r[1]));
+        }
+        checks += 1;
+    }
+    let openers = |s: &str| -> Vec<usize> { s.split(',').filter_map(|j| j.parse().ok()).collect() };
+    for r in &rows {
+        let mut chk = |ok: bool, what: String| { checks += 1; if !ok { fails.push(what); } };
+        if r[0].starts_with("x.enc") {
+            mlines.push(format!("wire enc {cfg} x{}", r[1]));
+            match XEnc::deserialize(&un(&r[1])) {
+                Err(_) => chk(false, format!("{}: no longer deserialises", r[0])),
+                Ok(e) => for j in openers(&r[4]) {
+                    if let Some(u) = usks.get(j) {
+                        chk(cc.decaps(u, &e).ok().flatten().map(|s| s.to_vec()) == Some(un(&r[2])), format!("{}: key {j} opened it on the pinned release and no longer recovers the same secret", r[0]));
+                    }
+                },
+            }
+        } else if r[0].starts_with("x.pke") {
+            match XEnc::deserialize(&un(&r[1])) {
+                Err(_) => chk(false, format!("{}: no longer deserialises", r[0])),
+                Ok(e) => for j in openers(&r[4]) {
+                    if let Some(u) = usks.get(j) {
+                        let p = PkeAc::<{ Aes256Gcm::KEY_LENGTH }, Aes256Gcm>::decrypt(&cc, u, &(e.clone(), un(&r[2]))).ok().flatten();
+                        chk(p.map(|q| q.to_vec()) == Some(un(&r[3])), format!("{}: key {j} decrypted it on the pinned release and no longer recovers the plaintext", r[0]));
+                    }
+                },
+            }
+        } else if r[0].starts_with("x.hdr") {
+            mlines.push(format!("wire hdr {cfg} x{}", r[1]));
+            match EncryptedHeader::deserialize(&un(&r[1])) {
+                Err(_) => chk(false, format!("{}: no longer deserialises", r[0])),
+                Ok(h) => {
+                    let ad = if r[4] == "-" { None } else { Some(un(&r[4])) };
+                    for j in openers(&r[5]) {
+                        if let Some(u) = usks.get(j) {
+                            match h.decrypt(&cc, u, ad.as_deref()) {
+                                Ok(Some(c)) => {
+                                    chk(c.secret.to_vec() == un(&r[2]), format!("{}: key {j}: secret differs", r[0]));
+                                    chk(c.metadata.clone().unwrap_or_default() == un(&r[3]), format!("{}: key {j}: metadata differs", r[0]));
+                                }
+                                _ => chk(false, format!("{}: key {j} opened it on the pinned release and no longer does", r[0])),
+                            }
+                        }
+                    }
+                }
+            }
+        }
+    }
+    // every key is still an issued key of that master key
+    if let Some(mut m) = msk {
+        for (j, u) in usks.iter().enumerate() {
+            for keep in [true, false] {
+                let mut u2 = u.clone();
+                checks += 1;
+                if cc.refresh_usk(&mut m, &mut u2, keep).is_err() {
+                    fails.push(format!("x.usk{j}: refresh (keep={keep}) with the deserialised master key fails"));
+                }
+            }
+        }
+    }
+    (checks, fails, mlines)
+}
+
 /// Golden check: objects serialised by the *pinned* tree are read by the current tree and used.
 /// Returns (number of checks, failures, model lines to decode the same bytes with the wire model).
 pub fn check(path: &str) -> (usize, Vec<String>, Vec<String>) {
